@@ -52,7 +52,7 @@ def main():
         if ok:
             dst = os.path.join("/verif/seeded", name)
             os.makedirs(dst, exist_ok=True)
-            for f in ("patch.diff", "demo.py"):
+            for f in (("patch.diff", "demo.py") if os.path.abspath(src) != dst else ()):
                 shutil.copy(os.path.join(src, f), os.path.join(dst, f))
             meta = json.load(open(os.path.join(src, "meta.json")))
             meta["property"] = prop
